@@ -27,12 +27,14 @@ func verifHarnessC20Apply() {
 	names := []string{"b", "s", "h", "u"}
 	vals := map[string][]byte{}
 	unknown := 0
+	knownAtStart := map[string]bool{}
 	for _, n := range names {
 		full := "pfx/" + n
 		vals[full] = nondetSeq("val." + n)
 		sv := &api.SecretValue{Value: vals[full], Version: 1}
 		if nondetBool("known." + n) {
 			s.active.m[full] = &cachedSecret{Secret: sv}
+			knownAtStart[full] = true
 		} else {
 			client.svc[full] = sv // must be looked up: may fail
 			unknown++
@@ -51,10 +53,26 @@ func verifHarnessC20Apply() {
 	want := f.Secrets()
 	assert("names-are-prefix-slash-name", and(len(want) == 4, want[0] == "pfx/b", want[1] == "pfx/s", want[2] == "pfx/h", want[3] == "pfx/u"))
 
-	err := f.Apply(verifBackground(), s)
+	// the caller's context may end while a lookup is in flight (the caller gives up after any request)
+	actx := &verifCtx{tag: "apply"}
+	client.mayCancel = actx
+	err := f.Apply(actx, s)
 
-	failed := ghostCount("svc.failed")
+	failed := ghostCount("svc.failed") + ghostCount("svc.request.cancelled")
 	assert("error-iff-some-lookup-failed", (err != nil) == (failed > 0))
+	// a field whose secret the store already holds needs no lookup: it is filled whatever happens to the other fields
+	if knownAtStart["pfx/b"] {
+		assert("field-of-a-known-secret-is-filled-whatever-else-fails", bytesEq(t.B, vals["pfx/b"]))
+	}
+	if knownAtStart["pfx/s"] {
+		assert("field-of-a-known-secret-is-filled-whatever-else-fails", t.S == string(vals["pfx/s"]))
+	}
+	if knownAtStart["pfx/h"] {
+		assert("field-of-a-known-secret-is-filled-whatever-else-fails", t.H != nil)
+	}
+	if knownAtStart["pfx/u"] {
+		assert("field-of-a-known-secret-is-filled-whatever-else-fails", bytesEq(gotU, vals["pfx/u"]))
+	}
 	assert("untagged-field-untouched", t.Skip == 7)
 	okB := mapHas(s.active.m, "pfx/b")
 	okS := mapHas(s.active.m, "pfx/s")
